@@ -154,6 +154,12 @@ def c04(run):
     rs = record_and_validate(run, 7 if t else 6, "random", 6000 if t else 800, "quant", "rand")
     record_and_validate(run, 4, "random", 12000 if t else 2000, "quant", "rand_nv4")
     record_and_validate(run, 5, "random", 8000 if t else 1200, "quant", "rand_nv5")
+    # the quantifiers of the formula language (variable lists as the parser hands them to exists / all): MC_Nest, Binders = 1 --
+    # `Q vs # w` for every one-step wrapper w of a variable (the quantified name in every operand position of every node kind) and
+    # every list shape; TLC checks Ev = Canon(Sem), the real solver is replayed (quick: a third of the family)
+    import checks_lang
+    pq, cq = checks_lang.mc_nest(run, 1, 1 if t else 3)
+    checks_lang.replay_lang(run, pq, "quantifier_formulas", {"C01", "C09"})
     run.nontrivial = s["cases"] // 2
     run.exhaustive = True
 
